@@ -24,7 +24,7 @@ from pySDC.helpers.stats_helper import get_sorted
 PROPERTY = 'C07'
 LEVEL = 'exploration'
 RULE = (
-    'enumerated clause: all 2^(P*(K+1)) assignments of converged/not-converged to (step, iteration) for P<=3,K<=2 and P<=2,K<=3 (quick) / P<=4,K<=3 and P<=3,K<=4 (thorough) '
+    'enumerated clause: all 2^(P*(K+1)) assignments of converged/not-converged to (step, iteration) for P<=3,K<=2 and P<=2,K<=3 (quick) / P<=4,K<=3 and P<=3,K<=4 on one level, P*(K+1) <= 12 on 2-3 levels (thorough) '
     'x controller configurations (1-3 levels x predictor x Jacobi/Gauss-Seidel x all_to_done x nsweeps 1-2); sampled clause: random patterns for P<=8, K<=8, '
     'biased to back-to-front and alternating ones, optionally with injected force_done flags. Non-trivial = some later step scripted to converge strictly before an earlier one, or a step converging at iteration 0.'
 )
@@ -202,24 +202,20 @@ def configs(tier):
 
 
 def enum_cases(tier):
+    """generator (the thorough tier has millions of patterns: never materialised)"""
     # (P, K): P steps, maxiter K -> 2^(P*(K+1)) patterns per configuration
     bounds = [(1, 3), (2, 2), (3, 1), (2, 3)] if tier == 'quick' else [(1, 4), (2, 3), (3, 3), (4, 2), (3, 4), (4, 3)]
-    out = []
-    seen = set()
     for cfg in configs(tier):
         for P, K in bounds:
             if tier == 'quick' and cfg['levels'] >= 2 and P * (K + 1) > 6:
                 continue
             if tier == 'quick' and cfg['levels'] == 1 and (P, K) == (2, 3) and cfg['nsweeps'] == [2]:
                 continue
-            if tier == 'thorough' and cfg['levels'] == 3 and P * (K + 1) > 12:
+            if tier == 'thorough' and cfg['levels'] >= 2 and P * (K + 1) > 12:
                 continue
             for bits in itertools.product([0, 1], repeat=P * (K + 1)):
                 table = [list(bits[s * (K + 1) : (s + 1) * (K + 1)]) for s in range(P)]
-                key = (tuple(sorted(cfg.items(), key=str)), P, K, bits)
-                case = dict(cfg, num_procs=P, maxiter=K, table=table)
-                out.append(case)
-    return out
+                yield dict(cfg, num_procs=P, maxiter=K, table=table)
 
 
 @st.composite
